@@ -395,6 +395,10 @@ def fam_fn_annexb(rng, n, prefix):
             d = rng.choice([h264_key(rng), h265_key(rng), h264_delta(rng), h265_delta(rng)])
             if rng.chance(1, 3) and len(d) > 2:
                 d = d[: rng.below(len(d))]
+        if rng.chance(1, 4):
+            # boundary placements of start codes: at the very end, doubled, after a single byte
+            d = d + rng.choice([SC4, SC3, SC3 + SC4, SC4 + SC3, bytes([rng.range(1, 255)]) + SC4, bytes([rng.range(1, 255)]) + SC3,
+                                SC4 + bytes([rng.range(1, 255)]), b"\x00" + SC3, b"\x00\x00"])
         if name == "find_start_code":
             out.append(fn_case("%s%d" % (prefix, i), name, hx(d), rng.below(len(d) + 3)))
         else:
